@@ -24,7 +24,7 @@ META = dict(
     bounds=dict(quick=dict(history="K<=3 events over one PID from {exit, zombie, reuse, clock step, boot_time(), new object, is_running(), process_iter(), create_time(), rename}; process names from 4 witnesses with parentheses/blanks/newline", objects="<= 4"),
                 thorough=dict(history="K<=5", objects="<= 6")),
     outside=["two incarnations of a PID started in the same clock tick", "longer histories", "hash collisions"],
-    labels=["eq-iff-same-incarnation", "equal-hash", "is_running-follows-the-process", "is_running-stays-false"],
+    labels=["eq-iff-same-incarnation", "equal-hash", "different-incarnations-hash-apart", "is_running-follows-the-process", "is_running-stays-false"],
 )
 
 
@@ -144,6 +144,10 @@ def identity(ctx, K, with_clock, names=False, popen=False, ticks=None, script=No
                 ctx.prove(bool(a != b) == (ia != ib), "eq-iff-same-incarnation", detail=f"history={log} != operator")
                 if ia == ib:
                     ctx.prove(hash(a) == hash(b), "equal-hash", detail=f"history={log}")
+                else:
+                    # "hash alike exactly when ...": objects of two incarnations of the PID do not (up to collisions of the real hash
+                    # function, which the injective model leaves out)
+                    ctx.prove(hash(a) != hash(b), "different-incarnations-hash-apart", detail=f"history={log} incarnations {ia},{ib}")
         for ai, (a, ia) in enumerate(objs):
             r = a.is_running()
             want = state["listed"] and state["inc"] == ia
